@@ -383,7 +383,8 @@ def gen_spec(rng, depth=0):
 
 def gen_plain_arg(rng):
     # arguments of interned/immutable harness types: distinct numeric values never compare equal across types within a case
-    return rng.choice([['int', rng.choice([3, 4, 5, 6])], ['str', rng.choice(['a', 'b', 'ab'])], ['tuple', [['int', rng.choice([3, 4])], ['str', 'a']]], ['none'], ['float', rng.choice([0.5, 2.25])]])
+    return rng.choice([['int', rng.choice([3, 4, 5, 6])], ['str', rng.choice(['a', 'b', 'ab'])], ['tuple', [['int', rng.choice([3, 4])], ['str', 'a']]], ['none'], ['float', rng.choice([0.5, 2.25])],
+                       ['float', rng.choice([0.5, 0.0, 0.0])]])
 
 
 def gen_tf(rng):
@@ -435,6 +436,10 @@ def near_misses(spec, rng):
             out.append([{'i': 'int', 'f': 'float', 'b': 'bool'}.get(kind, 'none'), vals[0]] if kind in 'ifb' else ['none'])
     elif t in ('P', 'S', 'D', 'V'):
         out.append([t, 'b' if spec[1] == 'a' else 'a'] + spec[2:])
+        for i in range(2, len(spec)):
+            if spec[i] == ['float', 0.0]:
+                # same type, other value (1/x differs), but equal for Python: -0.0
+                out.insert(0, spec[:i] + [['float', -0.0]] + spec[i + 1:])
         if t in ('P', 'S') and len(spec) == 3:
             out.append([t, spec[1], spec[2], ['int', 3]])
         other = {'P': 'S', 'S': 'P'}.get(t)
@@ -831,13 +836,26 @@ def worker_init():
     from . import c17_a, c17_b
 
 
+def _has_negzero(pool):
+    return '-0.0' in json.dumps(pool)
+
+
 def run_case(case):
     import treelog, warnings
     warnings.simplefilter('ignore')
     with treelog.set(treelog.NullLog()):
         if case['kind'] == 'xproc':
             return run_xproc(case)
-        return run_history(case)
+        res = run_history(case)
+        if res.get('verdict') == 'violation' and _has_negzero(case['pool']):
+            # Is it the known finding (intern tables are keyed on Python equality of the arguments, so X(-0.0) and X(0.0) share an entry)?
+            # Only if the violation disappears when the negative zeros are replaced by a float that is equal to nothing else in the pool.
+            c2 = json.loads(json.dumps(case).replace('-0.0', '0.375'))
+            res2 = run_history(c2)
+            if res2.get('verdict') == 'pass':
+                res['vclass'] = 'I-python-equal-arguments-share-intern-entry'
+                res['detail'] = 'only with arguments that are equal for Python but are different values (0.0 and -0.0): ' + str(res['detail'])
+        return res
 
 
 def shrink_candidates(case):
